@@ -183,12 +183,17 @@ func init() {
 			c.Ev("rebalancing_bonus_race_batches")
 			w.Step(5)
 		}
-		g.Free(c.N(120, 400), func(i int) int64 {
+		swapDt := func(i int) int64 {
 			if i%15 == 14 {
 				return 5
 			}
 			return g.StdDt(i)
-		})
+		}
+		if c.Job.Index%3 == 1 && !w.Dead {
+			NewChaos(c, w, g).Run(c.N(120, 400), swapDt)
+		} else {
+			g.Free(c.N(120, 400), swapDt)
+		}
 		c.Require(w.OkCount["/elys.amm.MsgSwapExactAmountOut"] > 5 && w.OkCount["/elys.amm.MsgSwapExactAmountIn"] > 20, "swaps of both forms accepted")
 	})
 }
